@@ -181,6 +181,12 @@ type world struct {
 	reqs  []*request
 	first map[string][]byte // leaf identity hash -> leaf value the backend stored first
 	ovr   *override         // sweep: every store read returns this row
+
+	// In free mode inside a bubble the detached cache writes of a request are collected and
+	// applied after the request, in a canonical order, so that nothing depends on how the Go
+	// scheduler interleaves them with the request's own cache reads.
+	bubble   bool
+	deferred []callInfo
 }
 
 type override struct {
@@ -215,6 +221,12 @@ func (c gCache) Set(ctx context.Context, key, chain []byte) error {
 
 func (w *world) ask(ci callInfo) result {
 	if w.free.Load() {
+		if w.bubble && ci.kind == "cache.Set" {
+			w.mu.Lock()
+			w.deferred = append(w.deferred, ci)
+			w.mu.Unlock()
+			return result{}
+		}
 		return w.apply(ci, w.menu(ci)[0])
 	}
 	id := -1
@@ -230,6 +242,27 @@ func (w *world) ask(ci callInfo) result {
 		return result{err: errShutdown}
 	}
 	return v.(result)
+}
+
+// settle lets the detached cache writes of the request just served arrive and applies them.
+func (w *world) settle() {
+	if !w.bubble {
+		return
+	}
+	synctest.Wait()
+	w.mu.Lock()
+	d := w.deferred
+	w.deferred = nil
+	w.mu.Unlock()
+	sort.SliceStable(d, func(i, j int) bool {
+		if c := bytes.Compare(d[i].key, d[j].key); c != 0 {
+			return c < 0
+		}
+		return bytes.Compare(d[i].val, d[j].val) < 0
+	})
+	for _, ci := range d {
+		w.apply(ci, "ok")
+	}
 }
 
 func (w *world) adversarial() bool { return strings.HasPrefix(w.sc.Cache, "adv") }
@@ -461,7 +494,7 @@ func newCache(kind string) cache.IssuanceChainCache {
 
 func newWorld(sc *scenario, indirect, bubble bool, viol func(sig, format string, args ...any)) *world {
 	w := &world{sc: sc, env: gate.NewEnv(), store: map[string][]byte{}, adv: map[string][]byte{}, viol: viol,
-		be: reflog.New(7), clock: &fe.Clock{T: baseTime}, first: map[string][]byte{}, faultsLeft: sc.MaxFaults}
+		be: reflog.New(7), clock: &fe.Clock{T: baseTime}, first: map[string][]byte{}, faultsLeft: sc.MaxFaults, bubble: bubble}
 	w.real = newCache(sc.Cache)
 	w.be.SetHook(func(method string, req proto.Message, next func() (proto.Message, error)) (proto.Message, error) {
 		rsp, err := next()
@@ -506,9 +539,6 @@ func newWorld(sc *scenario, indirect, bubble bool, viol func(sig, format string,
 			tk := uint64(baseTime.UnixMilli()) + 60 + uint64(i)
 			w.clock.Set(time.UnixMilli(int64(tk)))
 			w.runOp(0, &seq, op{K: "sub", U: u}, tk, "prelude")
-			if bubble {
-				synctest.Wait() // the detached cache write of this submission lands before the next one
-			}
 		}
 		w.be.Sequence(-1, uint64(baseTime.Add(90*time.Millisecond).UnixNano()))
 	}
@@ -541,6 +571,9 @@ func (w *world) issue(r *request) {
 	})
 	if pan {
 		r.Panic = msg + "\n" + stack
+	}
+	if r.Final != "" {
+		w.settle() // prelude and final reads run in the director's goroutine
 	}
 }
 
@@ -762,10 +795,8 @@ func runScenario(sc scenario, direct map[string][]*request) func(t *testing.T, x
 		tick++
 		w.runOp(9, &seq, op{K: "seq"}, tick, "final")
 		w.runOp(9, &seq, op{K: "read"}, tick, "final")
-		synctest.Wait()
 		w.nocch.Store(true)
 		w.runOp(9, &seq, op{K: "read"}, tick, "final-nocache")
-		synctest.Wait()
 		w.env.Shutdown()
 		synctest.Wait()
 		x.Outcome = w.judge(direct, nreq)
